@@ -37,12 +37,26 @@ Selectors ==
   \cup (IF PartK = 0 THEN {Str(r, c) : r \in LblCands(RowLabels), c \in LblCands(ColLabels)} \cup {Lst(l) : l \in Lists}
         ELSE {})
 
+\* narrowed selections plate[base][a, b]: a few base selections x every Python-style index pair
+PyCands(n) == {PyAt(i) : i \in 0..(n - 1)} \cup {PySl(lo, hi, st) : lo \in {-1, 0, 1, 2}, hi \in {-1, 1, 2, n}, st \in {0, 1, 2}}
+Bases == {All, Slc(IntN(2), None, 0), Pair(Slc(None, None, 2), Slc(IntN(1), IntN(NC), 0)),
+          Pair(Slc(IntN(1), None, 0), Slc(None, None, 2)), IntN(1), Pair(Slc(None, IntN(NR), 0), Slc(IntN(2), None, 0))}
+Narrowed == IF PartK # 0 THEN {}
+            ELSE {[k |-> "sub", base |-> b0, a |-> a, b |-> b] : b0 \in Bases, a \in PyCands(NR), b \in PyCands(NC)}
+
 VARIABLE sel
-Init == sel \in Selectors
+Init == sel \in Selectors \cup Narrowed
 Next == UNCHANGED sel
 Spec == Init /\ [][Next]_sel
 
-D(s) == Denote(s, RowLabels, ColLabels)
+D(s) == IF s.k = "sub" THEN Narrow(s.base, s.a, s.b, RowLabels, ColLabels) ELSE Denote(s, RowLabels, ColLabels)
+
+\* narrowing with the whole range is the identity, and narrowing composes like indexing a list
+NarrowLaws ==
+  \A b0 \in Bases : D(b0).ok =>
+     /\ Narrow(b0, PyAll, PyAll, RowLabels, ColLabels).wells = D(b0).wells
+     /\ \A i \in 0..(NR - 1) : Narrow(b0, PyAt(i), PyAll, RowLabels, ColLabels) = Narrow(b0, PySl(i, i + 1, 0), PyAll, RowLabels, ColLabels)
+ASSUME NarrowLaws
 
 \* emission: one line per selector
 Emit == PrintT(ToJson([sel |-> sel, den |-> D(sel)]))
@@ -64,7 +78,7 @@ SliceIsOrderedSet ==
          /\ \A j \in DOMAIN a.idx : j > 1 => a.idx[j - 1] < a.idx[j]
 
 \* row-major order of rectangular selections
-RowMajor == (D(sel).ok /\ sel.k # "list") =>
+RowMajor == (D(sel).ok /\ sel.k \notin {"list"}) =>
               \A j \in DOMAIN D(sel).wells : j > 1 =>
                  LET p == D(sel).wells[j - 1]
                      q == D(sel).wells[j]
